@@ -233,3 +233,15 @@ Proof.
 Qed.
 
 End Phases.
+
+(* every @implements diagnostic sits at the position of one of the package's own @implements annotations *)
+Theorem impl_diag_at_annotation tt cur imports anns d :
+  In d (impl_candidates tt cur imports anns) -> exists a, In a anns /\ d_pos d = ia_pos a.
+Proof.
+  unfold impl_candidates. intros H. repeat (apply in_app_or in H; destruct H as [H|H]); apply in_flat_map in H; destruct H as [a [Ha H]]; exists a; (split; [exact Ha|]).
+  - unfold impl01 in H. destruct (ia_notfound a); [destruct H as [<-|[]]; reflexivity|contradiction].
+  - unfold impl02 in H. destruct (ia_notfound a); [contradiction|]. destruct (find_iface tt cur imports (ia_fullpath a) (ia_iface a)); [contradiction|].
+    destruct H as [<-|[]]. reflexivity.
+  - unfold impl03 in H. destruct (ia_notfound a); [contradiction|]. destruct (find_iface tt cur imports (ia_fullpath a) (ia_iface a)); [|contradiction].
+    destruct (find_type tt (ia_type a)); [|contradiction]. destruct (missing_methods t i (ia_ptr a)); [contradiction|]. destruct H as [<-|[]]. reflexivity.
+Qed.
